@@ -361,7 +361,7 @@ def _pair_sig(r0: int, r1: int):  # type: ignore[no-untyped-def]
 _PB = "threads: %s + %s on one live session; symbolic start thread + %d preemption(s) at any statement; each thread's clock before/after the TTL"
 
 
-@cond(q=100, t=300, engine="coop", encoded=ENCODED, stubs=ASSUMPTIONS[:2], bound=_PB % ("request", "request", 1), replay=_pair_replay(0, 0), signature=_pair_sig(0, 0))
+@cond(q=240, t=400, engine="coop", encoded=ENCODED, stubs=ASSUMPTIONS[:2], bound=_PB % ("request", "request", 1), replay=_pair_replay(0, 0), signature=_pair_sig(0, 0))
 def request_vs_request_k1(past0: bool, past1: bool, first: int, p1: int) -> bool:
     """
     pre: 0 <= first <= 1 and 0 <= p1 <= 110
@@ -379,7 +379,7 @@ def request_vs_request_k2(past0: bool, past1: bool, first: int, p1: int, p2: int
     return _pair(0, 0, past0, past1, first, [(p1, 1 - first), (p2, first)])
 
 
-@cond(q=100, t=300, engine="coop", encoded=ENCODED, stubs=ASSUMPTIONS[:2], bound=_PB % ("request closing in-method", "request", 1), replay=_pair_replay(1, 0), signature=_pair_sig(1, 0))
+@cond(q=240, t=400, engine="coop", encoded=ENCODED, stubs=ASSUMPTIONS[:2], bound=_PB % ("request closing in-method", "request", 1), replay=_pair_replay(1, 0), signature=_pair_sig(1, 0))
 def closing_request_vs_request_k1(past0: bool, past1: bool, first: int, p1: int) -> bool:
     """
     pre: 0 <= first <= 1 and 0 <= p1 <= 110
@@ -397,7 +397,7 @@ def closing_request_vs_request_k2(past0: bool, past1: bool, first: int, p1: int,
     return _pair(1, 0, past0, past1, first, [(p1, 1 - first), (p2, first)])
 
 
-@cond(q=100, t=300, engine="coop", encoded=ENCODED, stubs=ASSUMPTIONS[:2], bound=_PB % ("request", "DELETE", 1), replay=_pair_replay(0, 2), signature=_pair_sig(0, 2))
+@cond(q=240, t=400, engine="coop", encoded=ENCODED, stubs=ASSUMPTIONS[:2], bound=_PB % ("request", "DELETE", 1), replay=_pair_replay(0, 2), signature=_pair_sig(0, 2))
 def request_vs_delete_k1(past0: bool, past1: bool, first: int, p1: int) -> bool:
     """
     pre: 0 <= first <= 1 and 0 <= p1 <= 110
@@ -415,7 +415,7 @@ def request_vs_delete_k2(past0: bool, past1: bool, first: int, p1: int, p2: int)
     return _pair(0, 2, past0, past1, first, [(p1, 1 - first), (p2, first)])
 
 
-@cond(q=100, t=300, engine="coop", encoded=ENCODED, stubs=ASSUMPTIONS[:2], bound=_PB % ("request closing in-method", "DELETE", 1), replay=_pair_replay(1, 2), signature=_pair_sig(1, 2))
+@cond(q=240, t=400, engine="coop", encoded=ENCODED, stubs=ASSUMPTIONS[:2], bound=_PB % ("request closing in-method", "DELETE", 1), replay=_pair_replay(1, 2), signature=_pair_sig(1, 2))
 def closing_request_vs_delete_k1(past0: bool, past1: bool, first: int, p1: int) -> bool:
     """
     pre: 0 <= first <= 1 and 0 <= p1 <= 110
@@ -433,7 +433,7 @@ def closing_request_vs_delete_k2(past0: bool, past1: bool, first: int, p1: int, 
     return _pair(1, 2, past0, past1, first, [(p1, 1 - first), (p2, first)])
 
 
-@cond(q=100, t=300, engine="coop", encoded=ENCODED, stubs=ASSUMPTIONS[:2], bound=_PB % ("request", "reaper tick", 1), replay=_pair_replay(0, 3), signature=_pair_sig(0, 3))
+@cond(q=240, t=400, engine="coop", encoded=ENCODED, stubs=ASSUMPTIONS[:2], bound=_PB % ("request", "reaper tick", 1), replay=_pair_replay(0, 3), signature=_pair_sig(0, 3))
 def request_vs_reaper_k1(past0: bool, past1: bool, first: int, p1: int) -> bool:
     """
     pre: 0 <= first <= 1 and 0 <= p1 <= 110
@@ -451,7 +451,7 @@ def request_vs_reaper_k2(past0: bool, past1: bool, first: int, p1: int, p2: int)
     return _pair(0, 3, past0, past1, first, [(p1, 1 - first), (p2, first)])
 
 
-@cond(q=100, t=300, engine="coop", encoded=ENCODED, stubs=ASSUMPTIONS[:2], bound=_PB % ("request", "shutdown", 1), replay=_pair_replay(0, 4), signature=_pair_sig(0, 4))
+@cond(q=240, t=400, engine="coop", encoded=ENCODED, stubs=ASSUMPTIONS[:2], bound=_PB % ("request", "shutdown", 1), replay=_pair_replay(0, 4), signature=_pair_sig(0, 4))
 def request_vs_shutdown_k1(past0: bool, past1: bool, first: int, p1: int) -> bool:
     """
     pre: 0 <= first <= 1 and 0 <= p1 <= 110
@@ -469,7 +469,7 @@ def request_vs_shutdown_k2(past0: bool, past1: bool, first: int, p1: int, p2: in
     return _pair(0, 4, past0, past1, first, [(p1, 1 - first), (p2, first)])
 
 
-@cond(q=100, t=300, engine="coop", encoded=ENCODED, stubs=ASSUMPTIONS[:2], bound=_PB % ("DELETE", "reaper tick", 1), replay=_pair_replay(2, 3), signature=_pair_sig(2, 3))
+@cond(q=240, t=400, engine="coop", encoded=ENCODED, stubs=ASSUMPTIONS[:2], bound=_PB % ("DELETE", "reaper tick", 1), replay=_pair_replay(2, 3), signature=_pair_sig(2, 3))
 def delete_vs_reaper_k1(past0: bool, past1: bool, first: int, p1: int) -> bool:
     """
     pre: 0 <= first <= 1 and 0 <= p1 <= 110
@@ -487,7 +487,7 @@ def delete_vs_reaper_k2(past0: bool, past1: bool, first: int, p1: int, p2: int) 
     return _pair(2, 3, past0, past1, first, [(p1, 1 - first), (p2, first)])
 
 
-@cond(q=100, t=300, engine="coop", encoded=ENCODED, stubs=ASSUMPTIONS[:2], bound=_PB % ("DELETE", "DELETE", 1), replay=_pair_replay(2, 2), signature=_pair_sig(2, 2))
+@cond(q=240, t=400, engine="coop", encoded=ENCODED, stubs=ASSUMPTIONS[:2], bound=_PB % ("DELETE", "DELETE", 1), replay=_pair_replay(2, 2), signature=_pair_sig(2, 2))
 def delete_vs_delete_k1(past0: bool, past1: bool, first: int, p1: int) -> bool:
     """
     pre: 0 <= first <= 1 and 0 <= p1 <= 110
